@@ -80,8 +80,8 @@ def build(case) -> Built:
     return b
 
 
-def apply_initial_conditions(b):
-    init = b.case['init']
+def apply_initial_conditions(b, init=None):
+    init = init or b.case['init']
     b.last.angular_position = B.q('AngularPosition', init['pos'])
     b.last.angular_speed = B.q('AngularSpeed', init['speed'])
     b.motor.pwm = b.case['motor'].get('pwm0', 1)
@@ -212,7 +212,7 @@ def run_op(b: Built, op: dict):
     elif kind == 'reset':
         b.powertrain.reset()
         if op.get('reinit', True):
-            apply_initial_conditions(b)
+            apply_initial_conditions(b, op.get('init'))
     else:
         raise ValueError(kind)
 
